@@ -17,6 +17,7 @@ import Mhd.Proofs.LoopProgress
 import Mhd.Proofs.LoopEpoll
 import Mhd.Proofs.LoopTpc
 import Mhd.Proofs.LoopConnSM
+import Mhd.Proofs.LoopReset
 
 namespace Mhd.C06
 open Mhd.Loop Mhd.Gen.Loop
@@ -502,6 +503,47 @@ example : ∃ t, TReach (TpcWitness.ops false) TpcWitness.needs tpcMarksSuspend 
   have h2 := TReach.iter (t' := _) false false false h1 rfl
   have h3 := TReach.resumed h2 (Or.inr (fun _ => by decide))
   exact ⟨_, h3, by decide, by decide, by decide⟩
+
+/-! ## pipelined requests: buffered input is work
+
+  After a completely sent reply on a kept-alive connection the read buffer may already hold the next request.
+  Model `Mhd.Model.LoopReset` (`w` = "bytes the parser has not looked at yet"); `needsBuf l = l.w || PROCESS`. -/
+
+/-- case FULL_REPLY_SENT of MHD_connection_handle_idle goes on with the state loop after connection_reset() (regenerated from
+    connection.c; false on a tree where the loop is left there — seeded change C06_4 — and then this file does not compile) -/
+theorem code_reply_sent_continues : replySentContinues = true := by decide
+
+/-- hence the step of /repo is the continuing one -/
+theorem replySentIdle_is_continuing (parse : Local Bool → Nat) (l : Local Bool) :
+    replySentIdle parse l = replySentIdleWith true parse l := by
+  unfold replySentIdle; rw [code_reply_sent_continues]
+
+/-- **Buffered input is not left behind.**  Whatever is buffered and wherever the parser gets with it: after handle_idle
+    no unexamined input remains, so the step is in sync for `needsBuf` (instance of `Laws.idle_sync` for this path; monitored on
+    the real code as law `idle_buffered`: state INIT after handle_idle ⇒ read_buffer_offset = 0). -/
+theorem reply_sent_leaves_no_unexamined_input (parse : Local Bool → Nat) (l : Local Bool) :
+    (replySentIdle parse l).w = false ∧
+    (needsBuf (replySentIdle parse l) = true → (replySentIdle parse l).eli.hasProcess = true) := by
+  rw [replySentIdle_is_continuing]
+  exact ⟨replySent_examined parse l, replySent_sync parse l⟩
+
+/-- witness: reply just sent (FULL_REPLY_SENT), a complete pipelined request buffered; the parser would get to HEADERS_PROCESSED -/
+def pipeLoc : Local Bool := { st := 21, eli := .write, rdReady := false, wrReady := false, bufSpace := true, w := true }
+def pipeDaemon (continues : Bool) : Daemon Bool :=
+  { conns := [{ id := 0, loc := replySentIdleWith continues (fun _ => 11) pipeLoc }] }
+
+/-- **Leaving the loop there loses the buffered request.**  connection_reset() sets PROCESS for the buffered bytes, but
+    MHD_connection_update_event_loop_info recomputes the wait class from the state alone (INIT: READ, regenerated table): the
+    daemon is quiescent — "no timeout", only readability watched — while a complete request waits in the buffer.  With the
+    `continue` the same connection ends in sync.  (Also non-vacuity of the theorem above.) -/
+theorem reply_sent_break_loses_wakeup :
+    getTimeout (pipeDaemon false) = .none ∧ Quiescent (pipeDaemon false) {} ∧
+    (∃ c ∈ (pipeDaemon false).conns, needsBuf c.loc = true ∧ c.loc.st = stInit ∧ c.loc.eli = .read) ∧
+    (∀ c ∈ (pipeDaemon true).conns, needsBuf c.loc = true → c.loc.eli.hasProcess = true) := by
+  refine ⟨by decide, ⟨by decide, ?_, ?_⟩, ⟨_, List.mem_cons_self, by decide⟩, ?_⟩
+  · intro id _; rfl
+  · intro id _; rfl
+  · intro c hc; simp only [pipeDaemon, List.mem_cons, List.not_mem_nil, or_false] at hc; subst hc; decide
 
 /-! ## tie to the C05 connection model -/
 
